@@ -88,17 +88,16 @@ def topoFuel (p : Phase) : Nat :=
 def topoOrder (p : Phase) : Except LErr (List Nat) :=
   trun p (topoFuel p) { stack := (sinks p).reverse, visiting := [], visited := [], order := [] }
 
-/-! per-statement wrapping: loops outermost, then the guard -/
-def wrapCond (s : LStmt) : Ast :=
-  match s.cond with
-  | none => .leaf s.id
-  | some c => .ite c (.leaf s.id) .null
-
+/-! per-statement wrapping: the guard outermost (evaluated once, before the loop bounds — as the
+    interpreter does; `fix:` commit), then the loops -/
 def wrapLoops : List Nat → Ast → Ast
   | [], a => a
   | v :: vs, a => .loop v (wrapLoops vs a)
 
-def wrap (s : LStmt) : Ast := wrapLoops s.loops (wrapCond s)
+def wrap (s : LStmt) : Ast :=
+  match s.cond with
+  | none => wrapLoops s.loops (.leaf s.id)
+  | some c => .ite c (wrapLoops s.loops (.leaf s.id)) .null
 
 def mainBlock (p : Phase) : List Nat → Except LErr (List Ast)
   | [] => .ok []
